@@ -32,7 +32,10 @@ VERIF = os.path.dirname(os.path.dirname(os.path.dirname(os.path.abspath(__file__
 
 
 def _values():
-    return gen.splitter_values(wild=True)
+    # incl. text that cannot be encoded (a lone surrogate, as lenient decoders produce) and ints beyond the int -> text limit:
+    # whatever such a call does - on the pinned tree it raises - it must do every time, on every instance, in every process
+    return st.one_of(gen.splitter_values(wild=True), gen.splitter_values(wild=True),
+                     st.sampled_from(["user\udc80", "\ud800", "a\udfffb", 10 ** 5000]))
 
 
 @st.composite
@@ -351,7 +354,7 @@ def k1_probe(rec):
 
 def fixed_histories():
     """==-equal values that print differently, called in opposite orders on two instances of the same source"""
-    vals = [1, True, 1.0, 0, False, -0.0, 0.0, 2, 2.0, 10 ** 20, 1e20, "", "1", None]
+    vals = [1, True, 1.0, 0, False, -0.0, 0.0, 2, 2.0, 10 ** 20, 1e20, "", "1", None, "user\udc80", "user\udc80"]
     for ng, salt in ((16, None), (7, "s1"), (64, "")):
         prog = M.program("exp", M.ret([(M.lit_str("g%d" % j), "1") for j in range(ng)]), salt=salt, splitters=["uid"])
         inputs = [M.enc_inputs({"uid": v}) for v in vals]
